@@ -77,6 +77,11 @@ class TaskHandler:
         future.add_done_callback(callback)
         return future
 
+    def open(self):
+        """Accept tasks (again): a flush closes the handler, a start after a shutdown has to open it."""
+        with self._accept_lock:
+            self._open = True
+
     def flush(self):
         """Await completion of all pending tasks."""
         with self._accept_lock:
